@@ -74,6 +74,7 @@ def check (server : Bool) (resetMax : Option Nat) (digest : String) : List Strin
       closed e && e.refs == 0 && !(e.flags.toList.any fun c => "scopawrS".toList.contains c) && e.buffered == 0
     (if cw - ca ≠ sumAvail then ["C16 assigned-capacity-ledger-broken"] else []) ++
     (if streams.any (·.sendAvail < 0) then ["C16 negative-capacity-assigned"] else []) ++
+    (if streams.any (fun e => closed e && e.sendAvail > 0 && e.buffered == 0) then ["C16 capacity-held-by-a-closed-stream"] else []) ++
     (if infl ≠ sumInfl then ["C03 receive-in-flight-ledger-broken"] else []) ++
     (if rw > 2147483647 ∨ ra > 2147483647 then ["C03 receive-window-above-2^31-1"] else []) ++
     (if dup then [] else
@@ -100,5 +101,11 @@ def heldCheck (digest : String) (sid held : Nat) : List String :=
   | some e =>
     if e.state.startsWith "Closed.Error" || e.state.startsWith "Closed.Scheduled" || has e 'R' then []
     else if e.inFlight ≠ held then ["C03 in-flight-octets-that-nobody-holds"] else []
+
+/-- C16, every wait for capacity is woken: a task was told to wait by `poll_capacity` when the stream's
+    usable capacity was `cap0`; now it is `cap`.  If it grew and the waiter's waker has not fired since
+    (`woken`), the waiter sleeps on capacity it was promised to hear about. -/
+def capWait (cap0 cap : Nat) (woken : Bool) : List String :=
+  if cap > cap0 && !woken then ["C16 capacity-arrived-without-waking-the-waiter"] else []
 
 end H2V.Spec.StateInv
